@@ -52,9 +52,9 @@ func c08GenLevel(t *rapid.T, depth int, path string, allowSub bool) c08Level {
 		subAt = rapid.IntRange(0, n-1).Draw(t, "subat"+path)
 	}
 	for i := 0; i < n; i++ {
-		name := fmt.Sprintf("%ss%d", path, i)
-		nf := rapid.IntRange(1, 2).Draw(t, "nfunc"+name)
-		st := c08Step{Name: name, Threshold: nf, DefectAt: rapid.IntRange(0, nf-1).Draw(t, "at"+name),
+		name := fmt.Sprintf("%s%s%d", path, []string{"z", "a", "m"}[i%3], i) // declared order is not the alphabetical one
+		nf := rapid.IntRange(1, 3).Draw(t, "nfunc"+name)
+		st := c08Step{Name: name, Threshold: rapid.IntRange(1, nf).Draw(t, "threshold"+name), DefectAt: rapid.IntRange(0, nf-1).Draw(t, "at"+name),
 			Functionaries: rapid.SliceOfNDistinct(rapid.SampledFrom([]string{"ed25519-0", "ed25519-1", "ecdsa-p256-0", "ecdsa-p256-1", "ecdsa-p384-0", "rsa2048-0"}), nf, nf, rapid.ID[string]).Draw(t, "func"+name)}
 		if i == subAt {
 			sub := c08GenLevel(t, depth-1, name+".", depth-1 > 0 && rapid.Bool().Draw(t, "deeper"+name))
@@ -62,7 +62,7 @@ func c08GenLevel(t *rapid.T, depth int, path string, allowSub bool) c08Level {
 		} else {
 			st.Creates = "f-" + name
 			if i > 0 && rapid.IntRange(0, 1).Draw(t, "del"+name) == 0 {
-				st.Deletes = "f-" + fmt.Sprintf("%ss%d", path, i-1)
+				st.Deletes = "f-" + lv.Steps[i-1].Name
 			}
 		}
 		lv.Steps = append(lv.Steps, st)
@@ -134,6 +134,7 @@ type c08Builder struct {
 	links   []hx.WMetaFile
 	tree    map[string]string
 	defects []string
+	absorbed []string // defects that cost one functionary's evidence while the threshold is still met
 	log     []string // expected inspection log order (accepting world)
 	evilPut bool
 	firstSub bool
@@ -188,16 +189,24 @@ func (b *c08Builder) buildLevel(lv c08Level, dir string, isRoot bool) hx.MLayout
 				link := hx.MLink{Type: "link", Name: st.Name, Materials: hx.ArtifactsOf(before), Products: hx.ArtifactsOf(after), ByProducts: hx.MObj{}, Command: []string{}, Environment: hx.MObj{}}
 				file := hx.WMetaFile{Name: dir + hx.LinkFileName(st.Name, k.KeyID), Wrapper: b.c.Wrapper, Meta: hx.MMeta{Link: &link}, Sigs: []hx.WSig{{Key: f}}}
 				if fi == st.DefectAt {
+					// a link that does not count is absorbed when the remaining functionaries still meet the threshold
+					uncount := func(kind string) {
+						if len(st.Functionaries)-1 >= st.Threshold {
+							b.absorbed = append(b.absorbed, kind+"@"+st.Name)
+						} else {
+							b.defects = append(b.defects, kind+"@"+st.Name)
+						}
+					}
 					switch st.Defect {
 					case "missing-link":
-						b.defects = append(b.defects, "missing-link@"+st.Name)
+						uncount("missing-link")
 						continue
 					case "forged-link":
 						file.Sigs = []hx.WSig{{Key: "ed25519-3", ClaimID: "pool:" + f}}
-						b.defects = append(b.defects, "forged-link@"+st.Name)
+						uncount("forged-link")
 					case "tampered-link":
 						file.Sigs = []hx.WSig{{Key: f, Forge: "other-content"}}
-						b.defects = append(b.defects, "tampered-link@"+st.Name)
+						uncount("tampered-link")
 					case "rule-violation":
 						link.Products = hx.ArtifactsOf(after)
 						link.Products["secret"] = map[string]string{"sha256": "5ec2e7"}
@@ -236,12 +245,19 @@ func (b *c08Builder) buildLevel(lv c08Level, dir string, isRoot bool) hx.MLayout
 				file := hx.WMetaFile{Name: dir + hx.LinkFileName(st.Name, k.KeyID), Wrapper: b.c.Wrapper, Meta: hx.MMeta{Layout: &subLay}, Sigs: []hx.WSig{{Key: f}}}
 				if defectHere {
 					switch st.Defect {
-					case "sub-foreign-sig":
-						file.Sigs = []hx.WSig{{Key: "ed25519-3", ClaimID: "pool:" + f}}
-						b.defects = append(b.defects, "sub-foreign-sig@"+st.Name)
-					case "sub-bad-sig":
-						file.Sigs = []hx.WSig{{Key: f, Forge: "other-content"}}
-						b.defects = append(b.defects, "sub-bad-sig@"+st.Name)
+					case "sub-foreign-sig", "sub-bad-sig":
+						// the sublayout file itself does not count (like a missing link): absorbed when the
+						// other functionaries still meet the threshold - failures INSIDE a counted sublayout never are
+						if st.Defect == "sub-foreign-sig" {
+							file.Sigs = []hx.WSig{{Key: "ed25519-3", ClaimID: "pool:" + f}}
+						} else {
+							file.Sigs = []hx.WSig{{Key: f, Forge: "other-content"}}
+						}
+						if len(st.Functionaries)-1 >= st.Threshold {
+							b.absorbed = append(b.absorbed, st.Defect+"@"+st.Name)
+						} else {
+							b.defects = append(b.defects, st.Defect+"@"+st.Name)
+						}
 					case "sub-missing-dir":
 						// the sublayout is offered, but none of its links
 						b.links = b.links[:nLinksBefore]
@@ -261,8 +277,9 @@ func (b *c08Builder) buildLevel(lv c08Level, dir string, isRoot bool) hx.MLayout
 			}
 			if b.c.ParentForbids && isRoot && !b.firstSub {
 				// an artifact that exists only inside the sublayout (created and deleted there) or never at all
-				ms.ExpProd = append([][]string{{"DISALLOW", "f-" + st.Name + ".s0"}}, ms.ExpProd...)
-				if _, still := b.tree["f-"+st.Name+".s0"]; still {
+				inner := "f-" + st.Sub.Steps[0].Name
+				ms.ExpProd = append([][]string{{"DISALLOW", inner}}, ms.ExpProd...)
+				if _, still := b.tree[inner]; still {
 					b.defects = append(b.defects, "parent-forbids-delivered@"+st.Name)
 				}
 			}
@@ -282,7 +299,7 @@ func (b *c08Builder) buildLevel(lv c08Level, dir string, isRoot bool) hx.MLayout
 		prev = st.Name
 	}
 	if lv.Inspection {
-		name := "insp-" + strings.ReplaceAll(strings.TrimSuffix(lv.Steps[0].Name, "s0"), ".", "_")
+		name := "insp-" + strings.ReplaceAll(lv.Steps[0].Name, ".", "_")
 		if isRoot {
 			name = "insp-root"
 		}
@@ -360,6 +377,9 @@ func c08Run(c c08Case, r *hx.Rec) error {
 	}
 	if len(b.defects) == 0 {
 		r.Label("no-defect")
+	}
+	for _, d := range b.absorbed {
+		r.Label("absorbed=%s", strings.SplitN(d, "@", 2)[0])
 	}
 	if depth >= 2 {
 		r.Nontrivial()
